@@ -569,7 +569,9 @@ package stats
 //@   ensures [counts] cnt1(labels, len(labels)) == len(x1) && cnt2(labels, len(labels)) == len(x2)
 //@   ensures [origin] forall k in 0..len(labels) :: (labels[k] == 1 ==> merged[k] == x1[cnt1(labels, k)]) && (labels[k] == 2 ==> merged[k] == x2[cnt2(labels, k)])
 //@   loop 1 invariant 0 <= i && i <= len(x1) && 0 <= j && j <= len(x2) && o == i + j && len(merged) == len(x1) + len(x2) && len(labels) == len(x1) + len(x2) && fresh(merged) && fresh(labels) && (forall a in 0..o, b in 0..o :: a <= b ==> merged[a] <= merged[b]) && (forall a in 0..o :: (i < len(x1) ==> merged[a] <= x1[i]) && (j < len(x2) ==> merged[a] <= x2[j])) && (forall k in 0..o :: labels[k] == 1 || labels[k] == 2) && i == cnt1(labels, o) && j == cnt2(labels, o) && (forall k in 0..o :: (labels[k] == 1 ==> merged[k] == x1[cnt1(labels, k)]) && (labels[k] == 2 ==> merged[k] == x2[cnt2(labels, k)]))
+//@   loop 2 forget
 //@   loop 2 invariant 0 <= i && i <= len(x1) && 0 <= j && j <= len(x2) && (i == len(x1) || j == len(x2)) && o == i + j && len(merged) == len(x1) + len(x2) && len(labels) == len(x1) + len(x2) && fresh(merged) && fresh(labels) && (forall a in 0..o, b in 0..o :: a <= b ==> merged[a] <= merged[b]) && (forall a in 0..o :: (i < len(x1) ==> merged[a] <= x1[i]) && (j < len(x2) ==> merged[a] <= x2[j])) && (forall k in 0..o :: labels[k] == 1 || labels[k] == 2) && i == cnt1(labels, o) && j == cnt2(labels, o) && (forall k in 0..o :: (labels[k] == 1 ==> merged[k] == x1[cnt1(labels, k)]) && (labels[k] == 2 ==> merged[k] == x2[cnt2(labels, k)]))
+//@   loop 3 forget
 //@   loop 3 invariant i == len(x1) && 0 <= j && j <= len(x2) && o == i + j && len(merged) == len(x1) + len(x2) && len(labels) == len(x1) + len(x2) && fresh(merged) && fresh(labels) && (forall a in 0..o, b in 0..o :: a <= b ==> merged[a] <= merged[b]) && (forall a in 0..o :: (j < len(x2) ==> merged[a] <= x2[j])) && (forall k in 0..o :: labels[k] == 1 || labels[k] == 2) && i == cnt1(labels, o) && j == cnt2(labels, o) && (forall k in 0..o :: (labels[k] == 1 ==> merged[k] == x1[cnt1(labels, k)]) && (labels[k] == 2 ==> merged[k] == x2[cnt2(labels, k)]))
 //@   assigns nothing
 
